@@ -1,5 +1,6 @@
 """C07 — Variant keeps the last assigned value with independent lazy copies."""
-from .. import q
+import re
+from .. import q, fin
 from .. import refcount as R
 from . import c04_alias
 from .. import containers as C
@@ -41,8 +42,98 @@ def pointer_compare_of_class_operands(prog, chk, rid):
     chk.ok(rid, "Variant", "%d built-in comparisons in Variant members inspected" % n_cmp, "", "no pair of user-defined conversions", evals=max(1, n_cmp))
 
 
+def scalar_tags(prog, chk, rid):
+    """tag <-> union member agreement for the scalar alternatives"""
+    chk.rule(rid, "TAG: the table tag -> union member is read from the scalar constructors; every access of a union member is dominated by a test "
+                  "for (or a store of) its tag, and operator== compares each member with the accessor of exactly its type", floor=30)
+    fs = [f for f in prog.functions.values() if f.clsq == "Variant" and f.blocks]
+    table = {}     # member -> tag
+    for f in fs:
+        if f.kind != "ctor" or len(f.params) != 1:
+            continue
+        tg, mem = None, None
+        for s in q.stores(f):
+            lt = q.no_casts(f.r(s.lhs))
+            if lt == "this->_data.type":
+                tg = fin.eval_expr(f, s.rhs, {})
+            m = re.match(r"^this->_data\.data\.(\w+)$", lt)
+            if m:
+                mem = m.group(1)
+        if tg is not None and mem is not None:
+            table[mem] = tg
+    if len(table) < 5:
+        from ..facts import AnalysisBroken
+        raise AnalysisBroken("scalar tag table of Variant could not be read from its constructors: %s" % table)
+    tags = sorted(set(R._enum_values(prog, "Variant::").values()))
+    for f in fs:
+        for i, n in enumerate(f.nodes):
+            if n["k"] != "MemberExpr" or n["m"] not in table or not n["c"]:
+                continue
+            base = q.no_casts(f.r(n["c"][0]))
+            if base not in ("this->data->data", "this->_data.data"):
+                continue
+            want = table[n["m"]]
+            pos = f.node_pos(i)
+            where = f.where(i)
+            if f.kind == "ctor":
+                continue
+            if base == "this->data->data":
+                feas, opaque, atoms = fin.feasible_valuations(f, pos, {"this->data->type": tags})
+                vals = sorted(set(v["this->data->type"] for v in feas))
+                if vals == [want]:
+                    chk.ok(rid, f, "data->data.%s read under tag %d" % (n["m"], want), where, "feasible tags %s" % vals, evals=len(tags))
+                else:
+                    chk.bad(rid, f, "union-member-read-under-other-tag:" + n["m"], where,
+                            "`%s` is read while the tag may be %s; that member belongs to tag %d (the value of another alternative is reinterpreted)" % (f.r(i), vals[:6], want))
+            else:
+                # write into the inline descriptor: on every path the type is (tested or set to) the member's tag
+                sets = [s2.node for s2 in q.stores(f) if q.no_casts(f.r(s2.lhs)) == "this->_data.type" and fin.eval_expr(f, s2.rhs, {}) == want]
+                tests = set()
+                for b in f.blocks.values():
+                    c = b.get("cond")
+                    if c is None or len(b["succ"]) != 2:
+                        continue
+                    k = fin.key(f, c)
+                    mm = re.match(r"^\(this->data->type (==|!=) (.+)\)$", k)
+                    if mm and fin.eval_expr(f, f.nodes[f.strip(c)]["c"][1], {}) == want:
+                        e = b["succ"][0] if mm.group(1) == "==" else b["succ"][1]
+                        if e is not None:
+                            tests.add((e, 0))
+                avoid = q.pos_of(f, sets) | tests
+                pth = f.find_path(f.entry_pos(), {pos}, avoid=avoid, after_src=False)
+                if pth is None and (sets or tests):
+                    chk.ok(rid, f, "_data.data.%s written with tag %d established" % (n["m"], want), where, "type test or store on every path", evals=2)
+                else:
+                    chk.bad(rid, f, "union-member-written-under-other-tag:" + n["m"], where,
+                            "`%s` is written on a path where the tag was neither tested nor set to %d: the Variant reports another type than the value it holds" % (f.r(i), want))
+    # operator==: operand types agree
+    eqs = [f for f in fs if f.short == "operator==" and len(f.params) == 1]
+    for f in eqs:
+        for i, n in enumerate(f.nodes):
+            if n["k"] != "BinaryOperator" or n["op"] != "==":
+                continue
+            l, r = n["c"]
+            ln = f.nodes[f.strip(l)]
+            if not (ln["k"] == "MemberExpr" and ln["m"] in table):
+                continue
+            conv = []
+            x = r
+            while x >= 0 and f.nodes[x]["k"] in ("ImplicitCastExpr", "ParenExpr"):
+                if f.nodes[x].get("ck") in ("IntegralCast", "IntegralToFloating", "FloatingToIntegral", "FloatingCast", "IntegralToBoolean"):
+                    conv.append(f.nodes[x]["ck"])
+                x = f.nodes[x]["c"][0] if f.nodes[x]["c"] else -1
+            rt = f.nodes[x].get("t", "") if x >= 0 else ""
+            if rt and rt != ln.get("t", "").replace("const ", ""):
+                chk.bad(rid, f, "equality-operand-converted:" + ln["m"], f.where(i),
+                        "`%s` compares the %s member with `%s` of type %s through an implicit %s: the other operand was narrowed by its accessor before "
+                        "the comparison (a value outside that type's range never equals its own copy)" % (f.r(i)[:60], ln.get("t"), f.r(x)[:30], rt, conv or "conversion"))
+            else:
+                chk.ok(rid, f, "%s compared with the accessor of its own type (%s)" % (ln["m"], rt), f.where(i), "operand types agree, no implicit arithmetic conversion", evals=2)
+
+
 def run(prog, chk):
     chk.extra["explanation"] = EXPLANATION
+    scalar_tags(prog, chk, "C07.g")
     R.tag_casts(prog, chk, "C07.a", ("Variant",), floor=15)
     R.exclusive_guard(prog, chk, "C07.b", ("Variant",), floor=8)
     R.clone_into_fresh(prog, chk, "C07.c", ("Variant",), floor=8)
